@@ -84,6 +84,31 @@ theorem lookup_of_mem_nodup : ∀ (fs : Fields) (k : String) (a : Val), nodupKey
       have : k' ≠ k := fun e => hn.1 (e ▸ hk)
       simp [Fields.lookup, this, lookup_of_mem_nodup fs k a hn.2 h]
 
+theorem mem_data : ∀ (fs : Fields), fs.data = true → ∀ k a, (k, a) ∈ fs.toList → a.data = true
+  | .nil, _, k, a, hm => by simp [Fields.toList] at hm
+  | .cons k' a' as, hw, k, a, hm => by
+    simp only [Fields.data, Bool.and_eq_true] at hw
+    simp only [Fields.toList, List.mem_cons, Prod.mk.injEq] at hm
+    rcases hm with ⟨rfl, rfl⟩ | hm
+    · exact hw.1
+    · exact mem_data as hw.2 k a hm
+
+/-- A duplicate-free list contained in another is no longer than it. -/
+theorem length_le_of_nodup_subset : ∀ (l1 l2 : List String), nodupKeys l1 = true → (∀ x ∈ l1, x ∈ l2) →
+    l1.length ≤ l2.length
+  | [], l2, _, _ => by simp
+  | a :: t, l2, hn, hs => by
+    rw [nodupKeys_cons] at hn
+    have ha : a ∈ l2 := hs a (by simp)
+    have hsub : ∀ x ∈ t, x ∈ l2.erase a := by
+      intro x hx
+      have hne : x ≠ a := fun e => hn.1 (e ▸ hx)
+      exact (List.mem_erase_of_ne hne).mpr (hs x (by simp [hx]))
+    have ih := length_le_of_nodup_subset t (l2.erase a) hn.2 hsub
+    rw [List.length_erase_of_mem ha] at ih
+    have : 0 < l2.length := List.length_pos_of_mem ha
+    simp; omega
+
 /-- `isEqualIn` says: every listed field has an equal partner of that name on the right. -/
 theorem isEqualIn_iff : ∀ (as gs : Fields), Fields.isEqualIn as gs = true ↔
     ∀ k a, (k, a) ∈ as.toList → ∃ b, gs.lookup k = .some b ∧ Val.isEqual a b = true
@@ -233,6 +258,69 @@ theorem isEqual_symm_fields : ∀ (as : Fields), as.wf = true → ∀ k a, (k, a
     rcases hm with ⟨rfl, rfl⟩ | hm
     · exact fun b hb h => isEqual_symm a b hw.1 hb h
     · exact isEqual_symm_fields as hw.2 k a hm
+end
+
+/-! ### Transitivity (no hypothesis on the values) -/
+
+theorem isEqualIn_trans (fs gs hs : Fields) (h1 : Fields.isEqualIn fs gs = true) (h2 : Fields.isEqualIn gs hs = true)
+    (ih : ∀ k a, (k, a) ∈ fs.toList → ∀ b c, a.isEqual b = true → b.isEqual c = true → a.isEqual c = true) :
+    Fields.isEqualIn fs hs = true := by
+  rw [isEqualIn_iff] at h1 h2 ⊢
+  intro k a ha
+  obtain ⟨b, hb, hab⟩ := h1 k a ha
+  obtain ⟨c, hc, hbc⟩ := h2 k b (lookup_mem gs k b hb)
+  exact ⟨c, hc, ih k a ha b c hab hbc⟩
+
+mutual
+theorem isEqual_trans : ∀ (a b c : Val), a.isEqual b = true → b.isEqual c = true → a.isEqual c = true
+  | .null, b, c, h1, h2 => by cases b <;> simp [Val.isEqual] at h1; cases c <;> simp [Val.isEqual] at h2 ⊢
+  | .int _, b, c, h1, h2 => by
+    cases b <;> simp [Val.isEqual] at h1; cases c <;> simp [Val.isEqual] at h2 ⊢; exact h1.trans h2
+  | .flt _, b, c, h1, h2 => by
+    cases b <;> simp [Val.isEqual] at h1; cases c <;> simp [Val.isEqual] at h2 ⊢; exact h1.trans h2
+  | .bool _, b, c, h1, h2 => by
+    cases b <;> simp [Val.isEqual] at h1; cases c <;> simp [Val.isEqual] at h2 ⊢; exact h1.trans h2
+  | .str _, b, c, h1, h2 => by
+    cases b <;> simp [Val.isEqual] at h1; cases c <;> simp [Val.isEqual] at h2 ⊢; exact h1.trans h2
+  | .none, b, c, h1, h2 => by cases b <;> simp [Val.isEqual] at h1; cases c <;> simp [Val.isEqual] at h2 ⊢
+  | .range .., b, c, h1, h2 => by
+    cases b <;> simp [Val.isEqual] at h1; cases c <;> simp [Val.isEqual] at h2 ⊢
+    obtain ⟨⟨a1, a2⟩, a3⟩ := h1
+    obtain ⟨⟨b1, b2⟩, b3⟩ := h2
+    exact ⟨⟨a1.trans b1, a2.trans b2⟩, a3.trans b3⟩
+  | .fn, b, c, h1, h2 => by simp [Val.isEqual] at h1
+  | .some a, b, c, h1, h2 => by
+    cases b <;> simp [Val.isEqual] at h1; cases c <;> simp [Val.isEqual] at h2 ⊢
+    exact isEqual_trans a _ _ h1 h2
+  | .list xs, b, c, h1, h2 => by
+    cases b <;> simp [Val.isEqual] at h1; cases c <;> simp [Val.isEqual] at h2 ⊢
+    exact ⟨h1.1.trans h2.1, isEqual_trans_vals xs _ _ h1.2 h2.2⟩
+  | .obj fs, b, c, h1, h2 => by
+    cases b <;> simp [Val.isEqual] at h1; cases c <;> simp [Val.isEqual] at h2 ⊢
+    exact ⟨h1.1.trans h2.1, isEqualIn_trans fs _ _ h1.2 h2.2 (isEqual_trans_fields fs)⟩
+  | .anyobj fs, b, c, h1, h2 => by
+    cases b <;> simp [Val.isEqual] at h1; cases c <;> simp [Val.isEqual] at h2 ⊢
+    exact ⟨h1.1.trans h2.1, isEqualIn_trans fs _ _ h1.2 h2.2 (isEqual_trans_fields fs)⟩
+theorem isEqual_trans_vals : ∀ (xs ys zs : Vals), Vals.isEqual xs ys = true → Vals.isEqual ys zs = true →
+    Vals.isEqual xs zs = true
+  | .nil, _, _, _, _ => by simp [Vals.isEqual]
+  | .cons x xs, ys, zs, h1, h2 => by
+    cases ys with
+    | nil => simp [Vals.isEqual] at h1
+    | cons y ys =>
+      cases zs with
+      | nil => simp [Vals.isEqual] at h2
+      | cons z zs =>
+        simp only [Vals.isEqual, Bool.and_eq_true] at h1 h2 ⊢
+        exact ⟨isEqual_trans x y z h1.1 h2.1, isEqual_trans_vals xs ys zs h1.2 h2.2⟩
+theorem isEqual_trans_fields : ∀ (as : Fields) k a, (k, a) ∈ as.toList →
+    ∀ b c, a.isEqual b = true → b.isEqual c = true → a.isEqual c = true
+  | .nil, k, a, hm => by simp [Fields.toList] at hm
+  | .cons k' a' as, k, a, hm => by
+    simp only [Fields.toList, List.mem_cons, Prod.mk.injEq] at hm
+    rcases hm with ⟨rfl, rfl⟩ | hm
+    · exact fun b c => isEqual_trans a b c
+    · exact isEqual_trans_fields as k a hm
 end
 
 end HmsProofs.Lemmas.ValEq
